@@ -12,7 +12,10 @@
 (* hist: the command line always starts a fresh process ("cold"); the      *)
 (* client and the direct pipeline run inside a process that may already    *)
 (* have served other inputs ("warm").  The report is a function of the     *)
-(* input only, so the history must not show.                               *)
+(* input only, so the history must not show.  "rewritten": the client has  *)
+(* already served the same input FILE in this process when it held other,  *)
+(* succeeding, content (the client derives its result path from the file   *)
+(* path): what that run left on disk is not the answer to this request.    *)
 (***************************************************************************)
 EXTENDS Integers, Sequences, TLC, Json
 
@@ -24,7 +27,7 @@ Args == {"none", "relative", "absolute", "relative_plain", "absolute_plain", "re
   \* _link : the requested name exists as a symbolic link to a file elsewhere; the report is written through it, the JSON goes next to
   \*         the requested name (the link's target itself is not counted as a separate file)
 
-Hists == {"cold", "warm"}
+Hists == {"cold", "warm", "rewritten"}
 
 VARIABLES pc, entry, arg, dir, input, hist, created, signal, report
 vars == <<pc, entry, arg, dir, input, hist, created, signal, report>>
@@ -42,7 +45,7 @@ OutPath(e, a, d) ==
 
 Init == /\ pc = "start" /\ entry \in Entries /\ arg \in Args /\ dir \in Dirs /\ input \in Inputs
         /\ (entry # "cli" => arg = "none")
-        /\ hist \in Hists /\ (entry \in {"cli", "mc"} => hist = "cold")
+        /\ hist \in Hists /\ (entry \in {"cli", "mc"} => hist = "cold") /\ (hist = "rewritten" => entry = "client")
         /\ created = {} /\ signal = "none" /\ report = "none"
 
 RunOk == /\ pc = "start" /\ input \notin FailingInputs
